@@ -10,7 +10,12 @@ from ..core.progdb import AnalysisError, walk_no_nested
 from ..core.values import Frame, Obj, PyTuple, to_term
 from ..specs.merge import check_term
 from ..specs import kernel_type as KT
-from .c05 import leaves
+from .c05 import leaves as _leaves5
+
+
+def leaves(t):
+    """pieces of a column: of a concatenation, and of a melted frame (one per value column)"""
+    return _leaves5(t, melt=True)
 
 EXPLANATION = (
     "Symbolic column-term evaluation of TraceCounters._get_queue_length_time_series_for_rank, _get_memory_bw_time_series_for_rank, "
